@@ -195,6 +195,21 @@ def run_inner(ctx, case):
     ctx.require(beta <= bu * (1 + 1e-4) + 1e-6, 'CHA: beta_CHA <= beta_PPT', f'{beta} vs {bu}')
     hist = np.asarray(hist, dtype=np.float64)
     ctx.label('cha solved')
+    # the same object solved again for ANOTHER direction, keeping its current bag of product states (num_init_retry=0): the answer must be about the new direction
+    rho2 = make_direction(r, D, 'entangled' if case['prng'] % 2 else 'dm', dims)
+    try:
+        beta2, info2 = bag.solve(rho2, maxiter=case['kp'] % 3, num_init_retry=0, return_info=True, seed=(case['prng'] + 1) % 1000)
+    except Exception as e:  # noqa
+        if type(e).__name__ in ('SolverError', 'AssertionError') or (type(e).__name__ == 'TypeError' and 'NoneType' in str(e)):
+            # the kept bag may not span the new direction: the LP is infeasible ("num_state might be too small"; a later iteration then meets lambda=None)
+            ctx.inconclusive_case('CHABoundaryBagging re-solve without re-initialisation failed')
+            return
+        raise
+    kA2, kB2, lam2, _ = info2
+    sig2 = sum(w * np.outer(np.kron(a, b), np.kron(a, b).conj()) for w, a, b in zip(lam2, kA2, kB2))
+    ctx.close(sig2, ray(rho2, beta2), 1e-4, 'CHA (object re-used for a second direction): sum lambda |ab><ab| = rho2(beta)')
+    ctx.require(beta2 <= E.get_ppt_boundary(rho2, dims)[1] * (1 + 1e-4) + 1e-6, 'CHA (object re-used): beta_CHA <= beta_PPT')
+    ctx.label('cha re-used')
 
 
 # --------------------------------------------------------------------------------------------- ordering of the hierarchy
